@@ -178,6 +178,46 @@ def autocovFft1 (tw : Nat → Nat → K) (complexResult : Bool) (x : List K)
   let x' := if debias then removeBias x else x
   crosscovFftCore tw complexResult x' x' allLags false normalize
 
+/-! ### `utils.crosscov_vector` / `utils.autocov_vector` (the multichannel lagged AVERAGES)
+
+`rxy[..., k] = (x[:, None, k:] * y[None, :, :N-k].conj()).mean(axis=-1)` for `k < nlags`
+(`nlags is None` → `N = x.shape[1]`): entry `(i, j, k)` is the sample mean over the `N-k`
+available products `x_i[t+k]·conj(y_j[t])` — divided by `N-k`, not by `N`. -/
+
+/-- one entry of `crosscov_vector`: the lagged average `E{x(t+k) y*(t)}` over `N-k` samples -/
+def laggedAvg (xi yj : List K) (N k : Nat) : K :=
+  div (sumRange (N - k) fun t => mul (nth xi (t + k)) (conj (nth yj t))) (ofNat (N - k))
+
+/-- `crosscov_vector(x, y, nlags)`: `rxy[i][j][k]`; `nlags = none` is the default `None` -/
+def crosscovVector (x y : List (List K)) (nlags : Option Nat) : List (List (List K)) :=
+  let N := (x.headD []).length
+  let nl := nlags.getD N
+  x.map fun xi => y.map fun yj => tabulate nl fun k => laggedAvg xi yj N k
+
+/-- `autocov_vector(x, nlags) = crosscov_vector(x, x, nlags)` -/
+def autocovVector (x : List (List K)) (nlags : Option Nat) : List (List (List K)) :=
+  crosscovVector x x nlags
+
+/-! ### integer / boolean recordings: the EXACT embedding of the stored samples
+
+numpy converts integer samples to floating point without changing their value before any of the
+sums below (`np.mean`, `fft`, true division); the definitions of this file on an integer array ARE
+the definitions on its embedding.  (Storing a lagged average back into an integer array — what
+`np.empty(..., dtype=np.result_type(x, y))` does — is NOT this; see `Props.truncated_…`.) -/
+
+/-- the value of an integer sample as a scalar -/
+def ofInt (z : Int) : K := if 0 ≤ z then ofNat z.toNat else sub (ofNat 0) (ofNat (-z).toNat)
+
+def embed (x : List Int) : List K := x.map ofInt
+
+/-- `crosscov` / `crosscorr` on integer lanes -/
+def crosscovInt (x y : List Int) (allLags debias normalize : Bool) : List K :=
+  crosscovCore (embed x) (embed y) allLags debias normalize
+
+/-- `crosscov_vector` on integer channels -/
+def crosscovVectorInt (x y : List (List Int)) (nlags : Option Nat) : List (List (List K)) :=
+  crosscovVector (x.map embed) (y.map embed) nlags
+
 end corr
 
 section real
@@ -415,6 +455,31 @@ def handleCov (fn kind : String) (axis : Int) (al db nm : Bool) (shape : List Na
   match kind with
   | "r" => run parseFloatList? showFloatList
   | "c" => run parseCList? showCList
+  | "i" => run (fun s => (parseIntList? s).map (embed (K := Float))) showFloatList
+  | _ => "bad-op"
+
+def showCube3 (show_ : List α → String) (r : List (List (List α))) : String :=
+  let nl := ((r.headD []).headD []).length
+  s!"ok {showNatList [r.length, (r.headD []).length, nl]} {show_ (r.flatMap fun a => a.flatMap id)}"
+
+/-- `covvec kind nlags N xdata ydata` / `acovvec kind nlags N xdata`: `crosscov_vector` / `autocov_vector` on
+channels of `N` samples (`nlags` = `none` for the default); kind `i` = integer / boolean recordings, run
+through the exact embedding `crosscovVectorInt` -/
+def handleCovVec (kind : String) (nl : Option Nat) (n : Nat) (xs : String) (ys : Option String) : String :=
+  let run {K} [Scalar K] (parse : String → Option (List K)) (show_ : List K → String) : String :=
+    match parse xs, ys with
+    | some xd, none => showCube3 show_ (autocovVector (rows n xd) nl)
+    | some xd, some ys => match parse ys with
+      | some yd => showCube3 show_ (crosscovVector (rows n xd) (rows n yd) nl)
+      | none => "bad-op"
+    | none, _ => "bad-op"
+  match kind with
+  | "r" => run parseFloatList? showFloatList
+  | "c" => run parseCList? showCList
+  | "i" => match parseIntList? xs, ys.map parseIntList? with
+    | some xd, none => showCube3 showFloatList (crosscovVectorInt (K := Float) (rows n xd) (rows n xd) nl)
+    | some xd, some (some yd) => showCube3 showFloatList (crosscovVectorInt (K := Float) (rows n xd) (rows n yd) nl)
+    | _, _ => "bad-op"
   | _ => "bad-op"
 
 /-- the twiddle table of the driver's FFT path: `tw L m = e^{-2πi m/L}` -/
@@ -469,14 +534,32 @@ def handleCovFft (fn kind : String) (al db nm : Bool) (xs : String) (ys : Option
     | _, _ => "bad-op"
   | _ => "bad-op"
 
+/-- `covfft … i …`: integer lanes, embedded exactly, then the two real paths -/
+def handleCovFftAny (fn kind : String) (al db nm : Bool) (xs : String) (ys : Option String) : String :=
+  if kind = "i" then
+    match parseIntList? xs, ys.map parseIntList? with
+    | some x, none => handleCovFft fn "r" al db nm (showFloatList (embed x)) none
+    | some x, some (some y) =>
+      handleCovFft fn "r" al db nm (showFloatList (embed x)) (some (showFloatList (embed y)))
+    | _, _ => "bad-op"
+  else handleCovFft fn kind al db nm xs ys
+
 def handle (args : List String) : String :=
   match args with
+  | ["covvec", kind, nl, n, xs, ys] =>
+    match n.toNat? with
+    | some n => handleCovVec kind nl.toNat? n xs (some ys)
+    | none => "bad-op"
+  | ["acovvec", kind, nl, n, xs] =>
+    match n.toNat? with
+    | some n => handleCovVec kind nl.toNat? n xs none
+    | none => "bad-op"
   | ["fftconv", kind, mode, as, bs] =>
     match mode.toNat? with
     | some m => handleFftconv kind m as bs
     | none => "bad-op"
-  | ["covfft", fn, kind, al, db, nm, xs] => handleCovFft fn kind (b? al) (b? db) (b? nm) xs none
-  | ["covfft", fn, kind, al, db, nm, xs, ys] => handleCovFft fn kind (b? al) (b? db) (b? nm) xs (some ys)
+  | ["covfft", fn, kind, al, db, nm, xs] => handleCovFftAny fn kind (b? al) (b? db) (b? nm) xs none
+  | ["covfft", fn, kind, al, db, nm, xs, ys] => handleCovFftAny fn kind (b? al) (b? db) (b? nm) xs (some ys)
   | [fn, kind, axis, al, db, nm, shape, xs] =>
     match axis.toInt?, parseNatList? shape with
     | some ax, some sh => handleCov fn kind ax (b? al) (b? db) (b? nm) sh xs none
